@@ -823,24 +823,37 @@ class ovld_cls_dict(dict):
 
     def __init__(self, bases):
         self._bases = bases
+        self._extended = set()
 
     def __setitem__(self, attr, value):
         prev = None
-        if attr in self:
-            prev = to_ovld(self[attr])
-        elif is_ovld(value) and getattr(value, "_extend_super", False):
+        if (
+            is_ovld(value)
+            and getattr(value, "_extend_super", False)
+            and attr not in self._extended
+        ):
+            # The inherited methods are pulled in once, by the first
+            # definition that carries the mark - also when definitions of
+            # this class body came before it: they go on top of them
             mixins = []
             for base in self._bases:
                 if (candidate := getattr(base, attr, None)) is not None:
                     if mixin := to_ovld(candidate):
                         mixins.append(mixin)
             if mixins:
+                self._extended.add(attr)
                 prev, *others = mixins
                 prev = prev.copy()
                 for other in others:
                     prev.add_mixins(other)
-        else:
-            prev = None
+                if attr in self:
+                    earlier = self[attr]
+                    if is_ovld(earlier):
+                        prev.add_mixins(getattr(earlier, "__ovld__", earlier))
+                    elif inspect.isfunction(earlier):
+                        prev.register(earlier)
+        if prev is None and attr in self:
+            prev = to_ovld(self[attr])
 
         if prev is not None:
             if is_ovld(value) and prev is not value:
